@@ -200,6 +200,31 @@ def c06(ctx, res):
         if ix < 3:
             res.samples.append({"source": e["source"], "object_hex": data[:64].hex(), "exit": ra.rc})
 
+    # ---- directed round trips: whatever `lace compile` accepts must run the same from source and from
+    # the object file - sources in unusual clothes (byte-order mark, CR LF, no final newline) and
+    # images that reach across xFE00 with data only (the program halts below it)
+    directed = [("bom", "\ufefflea r0 m\nputs\nhalt\nm .stringz \"ok\"\n"),
+                ("crlf", "lea r0 m\r\nputs\r\nhalt\r\nm .stringz \"ok\"\r\n"),
+                ("no_final_newline", "lea r0 m\nputs\nhalt\nm .stringz \"ok\""),
+                ("across_fe00_string", ".orig xFDF0\nlea r0 m\nputs\nhalt\n.blkw #32\nm .stringz \"hi\"\n"),
+                ("across_fe00_to_ffff", ".orig xFD80\nand r0 r0 #0\nadd r0 r0 #9\nputn\nhalt\n.blkw #634\n.fill x1\n"),
+                ("across_fe00_big_blkw", "and r0 r0 #0\nadd r0 r0 #3\nputn\nhalt\nbuf .blkw xCE00\n"),
+                ("ends_at_fdff", ".orig xFDFC\nand r0 r0 #0\nadd r0 r0 #1\nputn\nhalt\n")]
+    for k, (tag, srctext) in enumerate(directed):
+        name, obj = "dir%d.asm" % k, "dir%d.lc3" % k
+        _write(os.path.join(d, name), srctext)
+        c = lace(ctx, ["compile", name, obj], cwd=d)
+        res.evaluations += 1
+        if c.rc != 0:
+            res.cls("directed_round_trip:compile_rejects:" + tag)
+            continue
+        ra = lace(ctx, ["run", name, "--minimal"], cwd=d)
+        ro = lace(ctx, ["run", obj, "--minimal"], cwd=d)
+        res.cls("directed_round_trip:" + tag)
+        if ra.rc != ro.rc or ra.out.replace(name.encode(), b"<file>") != ro.out.replace(obj.encode(), b"<file>"):
+            res.violate("C06/round-trip-behaviour", "`lace compile` accepted the source, but running the object file differs from running the source (exit %s vs %s)"
+                        % (ro.rc, ra.rc), {"kind": tag, "source": srctext[:300], "compile": c.brief(), "run_source": ra.brief(), "run_object": ro.brief()})
+
     # ---- objects larger than one I/O block with long runs of zero words (at the end, in the middle)
     big = [("add r0 r0 #1\nhalt\nbuf .blkw #3000\n", [0x3000, 0x1021, 0xF025] + [0] * 3000),
            ("halt\nbuf .blkw #2047\n", [0x3000, 0xF025] + [0] * 2047),
@@ -345,7 +370,7 @@ def c06(ctx, res):
                                 % (behind[ix], r.rc), detail)
     res.distinct += len(set(files))
     res.require(["round_trip", "dest:longer_file_existed", "dest:absent", "ext:lc3", "ext:obj", "loader:empty", "loader:odd", "loader:fits", "loader:too_long",
-                 "edge:FFFF", "edge:10000", "edge:FFFE", "delivery:fifo:odd", "delivery:fifo:even", "loader:runs_into_implicit_halt", "object_with_long_zero_run"], "L2")
+                 "edge:FFFF", "edge:10000", "edge:FFFE", "delivery:fifo:odd", "delivery:fifo:even", "loader:runs_into_implicit_halt", "object_with_long_zero_run", "directed_round_trip:across_fe00_string", "directed_round_trip:crlf"], "L2")
     return res
 
 
